@@ -48,7 +48,7 @@ def run(tier, replay=None):
                 if name == "RegisterPrompt":
                     steps.append({"op": "regprompt"}); exp.append(None)
                 elif name == "RegisterResource":
-                    steps.append({"op": "regresource"}); exp.append(None)
+                    steps.append({"op": "regresource", "multi": (n + len(kind)) % 2 == 1}); exp.append(None)
                 else:
                     steps.append({"op": "init", "v": a[0]}); exp.append((a[0], a[1], sorted(a[2])))
             sid = "s-%s-%d" % (kind, n)
